@@ -265,18 +265,23 @@ def gen_cases(rng, thorough):
     scripts = [[], [None], ["5"], ["5", 6], [None, "7", None], ["5", "x"], ["x"], [0, "0", 3], [None, None, None, None]]
     if thorough:
         scripts += [[rng.choice([None, "5", 6, 0, "0", "x"]) for _ in range(rng.randint(1, 5))] for _ in range(40)]
+    from utype import Options
     for kind in ("sync", "async"):
-        for eager in (False, True):
+        # collect: the wrapper runs under Options(collect_errors=True); ybad: the body's second yield does not convert to the declared type
+        for eager, collect, ybad in ((False, False, False), (True, False, False), (False, True, False), (True, True, False),
+                                     (False, False, True), (False, True, True)):
+            yexpr = "('x' if i == 1 else str(i + total))" if ybad else "str(i + total)"
+            okw = {"options": Options(collect_errors=True)} if collect else {}
             for n in (0, 1, 3):
                 for script in scripts:
                     recv_d, recv_r = [], []
                     if kind == "sync":
                         ns = {"RECV": recv_d, "Generator": Generator}
-                        src = GEN_SRC.format(ann_n=": int", ret=" -> Generator[int, int, int]", yexpr="str(i + total)", rexpr="str(total)")
+                        src = GEN_SRC.format(ann_n=": int", ret=" -> Generator[int, int, int]", yexpr=yexpr, rexpr="str(total)")
                         exec(src, ns)
-                        dec = utype.parse(eager=eager)(ns["gen"])
+                        dec = utype.parse(eager=eager, **okw)(ns["gen"])
                         nr = {"RECV": recv_r}
-                        exec(GEN_SRC.format(ann_n="", ret="", yexpr="str(i + total)", rexpr="str(total)"), nr)
+                        exec(GEN_SRC.format(ann_n="", ret="", yexpr=yexpr, rexpr="str(total)"), nr)
                         try:
                             evd = drive_sync(dec(str(n)), script, recv_d)
                         except Exception as e:
@@ -287,12 +292,12 @@ def gen_cases(rng, thorough):
                             evr.append(("raise", "ParseError"))
                     else:
                         ns = {"RECV": recv_d, "AsyncGenerator": AsyncGenerator}
-                        src = "async " + GEN_SRC.strip().format(ann_n=": int", ret=" -> AsyncGenerator[int, int]", yexpr="str(i + total)", rexpr="")
+                        src = "async " + GEN_SRC.strip().format(ann_n=": int", ret=" -> AsyncGenerator[int, int]", yexpr=yexpr, rexpr="")
                         src = src.replace("    return \n", "    return\n").replace("    return ", "    return")
                         exec(src, ns)
-                        dec = utype.parse(eager=eager)(ns["gen"])
+                        dec = utype.parse(eager=eager, **okw)(ns["gen"])
                         nr = {"RECV": recv_r}
-                        rsrc = "async " + GEN_SRC.strip().format(ann_n="", ret="", yexpr="str(i + total)", rexpr="")
+                        rsrc = "async " + GEN_SRC.strip().format(ann_n="", ret="", yexpr=yexpr, rexpr="")
                         rsrc = rsrc.replace("    return ", "    return")
                         exec(rsrc, nr)
                         try:
@@ -303,7 +308,13 @@ def gen_cases(rng, thorough):
                         evr = asyncio.run(drive_async(nr["gen"](n), script if b is None else script[:b], recv_r))
                         if b is not None and evr[-1][0] not in ("return", "raise"):
                             evr.append(("raise", "ParseError"))
-                    out.append((kind, eager, n, script, evd, evr))
+                    # a yielded value that does not convert to the declared type is never delivered: the consumer gets a ParseError there
+                    for j, (e, v) in enumerate(evr):
+                        if e == "yield" and val(v)["k"] not in ("int", "lit"):
+                            # (the driver logs what the body received only after send() returned, which it does not here)
+                            evr = evr[:j - 1 if j and evr[j - 1][0] == "recv" else j] + [("raise", "ParseError")]
+                            break
+                    out.append((kind + ("+collect" if collect else "") + ("+badyield" if ybad else ""), eager, n, script, evd, evr))
     return out
 
 
